@@ -292,6 +292,31 @@ func c03UPCEANJob(s *odUPCEAN, payload string, withCheck bool, multi bool) *c03J
 		job.reads = append(job.reads, c03Read{label: "multi+formats", rname: "multi/" + s.name, mk: func() gozxing.Reader {
 			return oned.NewMultiFormatUPCEANReader(map[gozxing.DecodeHintType]interface{}{gozxing.DecodeHintType_POSSIBLE_FORMATS: []gozxing.BarcodeFormat{f}})
 		}, hints: pf, want: full, format: s.format})
+		// several formats named, in an order derived from the content (the reader tries them in turn:
+		// a decoder that declines a symbol must not stop the others from being tried)
+		all := []gozxing.BarcodeFormat{gozxing.BarcodeFormat_UPC_A, gozxing.BarcodeFormat_EAN_13, gozxing.BarcodeFormat_EAN_8, gozxing.BarcodeFormat_UPC_E}
+		rot := 0
+		for i := 0; i < len(full); i++ {
+			rot += int(full[i])
+		}
+		order := make([]gozxing.BarcodeFormat, 4)
+		for i := range order {
+			order[i] = all[(i+rot)%4]
+		}
+		if rot%3 == 0 {
+			order[0], order[1] = order[1], order[0]
+		}
+		ph := map[gozxing.DecodeHintType]interface{}{gozxing.DecodeHintType_POSSIBLE_FORMATS: order}
+		many := c03Read{label: "multi+all-formats", rname: "multi/all", mk: func() gozxing.Reader { return oned.NewMultiFormatUPCEANReader(ph) }, hints: ph, want: full, format: s.format}
+		if s == odUPCA {
+			// both UPC-A and EAN-13 are named: either description of the same symbol is accepted
+			many.altWant, many.altFormat, many.altTally = "0"+full, gozxing.BarcodeFormat_EAN_13, "dont_care_multi_all_upca_as_ean13"
+		}
+		if s == odEAN13 && full[0] == '0' {
+			// an EAN-13 number with a leading 0 is a UPC-A number: with UPC_A among the requested formats it is reported as such
+			many.altWant, many.altFormat, many.altTally = full[1:], gozxing.BarcodeFormat_UPC_A, "dont_care_multi_all_ean13_leading0_as_upca"
+		}
+		job.reads = append(job.reads, many)
 		rd := c03Read{label: "multi", rname: "multi", mk: c03MultiNoHints, want: full, format: s.format}
 		if s == odUPCA {
 			// documented special case: without POSSIBLE_FORMATS naming UPC-A the symbol is an EAN-13 with leading 0
@@ -561,6 +586,14 @@ func c03UPCEANRejects(e *c03Env, s *odUPCEAN) {
 	rj := func(class, content string) bool {
 		return e.reject(c03Rej{sym: s.name, class: class, format: s.format, mkW: s.writer, content: content})
 	}
+	// decimal digits outside ASCII (Arabic-Indic, fullwidth, Devanagari) are not digits of the symbology
+	for _, alt := range []string{"\u0661", "\uff11", "\u0967"} {
+		d := odDigits(rng, s.payload)
+		k := rng.Intn(len(d))
+		if !rj("non-ascii-digit", d[:k]+alt+d[k+1:]) || !rj("non-ascii-digit", strings.Repeat(alt, s.payload)) {
+			return
+		}
+	}
 	for n := 0; n <= 20; n++ {
 		if n == s.payload || n == s.payload+1 {
 			continue
@@ -715,6 +748,14 @@ func c03OtherRejects(e *c03Env, which string) {
 	case "itf":
 		rj := func(class, content string) bool {
 			return e.reject(c03Rej{sym: "itf", class: class, format: gozxing.BarcodeFormat_ITF, mkW: oned.NewITFWriter, content: content})
+		}
+		for _, alt := range []string{"\u0661", "\uff11", "\u0967"} {
+			// UTF-8 byte length even and <= 80 on purpose: only the character check can refuse these
+			for _, c := range []string{alt + alt, "12" + alt + alt, alt + alt + "34" + alt + alt, strings.Repeat(alt, 6)} {
+				if !rj("non-ascii-digit", c) {
+					return
+				}
+			}
 		}
 		if !rj("wrong-length", "") {
 			return
